@@ -426,7 +426,9 @@ class TGen:
         return [A('assign'), V(x), self.rexpr(2) if self.ty[x] == 'real' else self.bounded(self.iexpr(2))]
 
     def bounded(self, e):
-        """keep stored integers small: min(max(e, -99), 99)"""
+        """keep stored integers small: min(max(e, -99), 99), sometimes in variadic form min(max(e, -99, -120), 99, 120)"""
+        if self.rng.random() < self.cfg['p_nary']:
+            return CALL('min', CALL('max', e, ilit(-99), ilit(-120)), I(99), I(120))
         return CALL('min', CALL('max', e, ilit(-99)), I(99))
 
     def do_loop(self, depth):
